@@ -21,6 +21,7 @@ u8 _ZNK8Pistache12StreamCursor7currentEv(u8* c) { return CC_AVAIL(c) == 0 ? (u8)
 u32 _ZNK8Pistache12StreamCursor4nextEv(u8* c) { return CC_AVAIL(c) >= 2 ? (u32)(i32)(i8)CC_SB(c)->gptr[1] : (u32)-1; }
 u8* _ZNK8Pistache12StreamCursor6offsetEv(u8* c) { return CC_SB(c)->gptr; }
 u8* _ZNK8Pistache12StreamCursor6offsetEm(u8* c, u64 off) { return CC_SB(c)->eback + off; }
+void _ZN8Pistache12StreamCursor5resetEv(u8* c) { CC_SB(c)->eback = 0; CC_SB(c)->gptr = 0; CC_SB(c)->egptr = 0; }
 u64 _ZNK8Pistache12StreamCursor4diffEm(u8* c, u64 other) { return ((u64)CC_SB(c)->gptr - (u64)CC_SB(c)->eback) - other; }
 #endif
 #endif
